@@ -259,3 +259,19 @@ H("path_amplification_allowance", ["C07"], "quick", "connection::paths::amplific
   ["gate passes", "gate blocks"], ["PathData::anti_amplification_blocked"],
   "every counter < 2^62, every segment size: u16, batches of up to 10 datagrams",
   assumes=["the gate argument `segment_size * num_datagrams + 1` is copied from the call site in Connection::poll_transmit (the call site itself is not encoded)"])
+
+# ------------------------------------------------------------------ datagrams.rs (C16.a, C06.d)
+H("dgram_received", ["C16", "C06"], "quick", "connection::datagrams::received",
+  [("k", "u8"), ("l0", "u8"), ("l1", "u8"), ("n", "u8"), ("has_window", "bool"), ("window", "u32")], 6,
+  ["accepted", "PROTOCOL_VIOLATION", "oldest dropped"],
+  ["DatagramState::received", "DatagramState::recv"], "0..=1 datagram buffered, every length: u8, every window: u32 (static payloads: content is not copied by this layer); two or more buffered datagrams exceed the SAT back end's memory")
+H("dgram_recv_in_order", ["C16"], "quick", "connection::datagrams::recv_in_order",
+  [("k", "u8"), ("l0", "u8"), ("l1", "u8")], 6,
+  ["empty queue", "one datagram", "two datagrams"], ["DatagramState::recv"], "0..=2 datagrams buffered, every length: u8")
+H("dgram_send_space", ["C16"], "quick", "connection::datagrams::send_space",
+  [("k", "u8"), ("l0", "u8"), ("l1", "u8"), ("len", "usize"), ("bound", "usize")], 6,
+  ["reached", "oldest dropped", "had space"],
+  ["DatagramState::has_send_buffer_space", "DatagramState::make_space_for"], "0..=1 datagram queued, every length: u8, every len/bound: usize")
+H("dgram_send_space_overflow_guard", ["C16"], "quick", "connection::datagrams::send_space_overflow_guard",
+  [("total", "usize"), ("len", "usize"), ("bound", "usize")], 6, ["space", "no space"],
+  ["DatagramState::has_send_buffer_space"], "every usize triple")
